@@ -171,7 +171,7 @@ async fn exchange(role: Role, seed: Option<u64>, rep: &mut Report) -> Result<(Ou
 
 pub fn run(args: &Args) -> Report {
     let mut rep = Report::new();
-    let n: u64 = if args.thorough { 700 } else { 40 };
+    let n: u64 = if args.thorough { 1500 } else { 160 };
     for (gi, multi) in [true, false].into_iter().enumerate() {
         let rt = crate::runtime(multi, 4);
         rt.block_on(async {
